@@ -11,6 +11,7 @@ pub mod c06;
 pub mod c07;
 pub mod c08;
 pub mod c09;
+pub mod c10;
 pub mod c11;
 pub mod c12;
 pub mod c13;
@@ -38,6 +39,7 @@ pub fn dispatch(id: &str, tier: Tier, replay: Option<Value>, _rest: &[String]) -
         "C07" => c07::run(tier, replay),
         "C08" => c08::run(tier, replay),
         "C09" => c09::run(tier, replay),
+        "C10" => c10::run(tier, replay),
         "C11" => c11::run(tier, replay),
         "C12" => c12::run(tier, replay),
         "C13" => c13::run(tier, replay),
